@@ -19,7 +19,10 @@ PROP = {
              "tlb.Marshal under 7 other envelopes (destination anycast + external source + import fee; init inline; init by reference "
              "with a library dictionary; init inline with libraries; body inline and any destination form; internal message with "
              "extra currencies; external-out message): verification verdict and decoding vs the model, which starts from the full "
-             "message cell. "
+             "message cell; Wallet.CreateMessageBody on wallets created with / without WithMessageLifetime (none, 30 s, 1 s, 24 h, 7 d, "
+             "0, 1.5 s, -5 s, 180 s) x the other options x zero / explicit ValidUntil x every version (kind c14.expiry): the expiry the "
+             "body carries, relative to the clock for a default expiry, vs the model whose clock is a parameter; the same wallet through "
+             "SendV2 must carry the same default expiry. "
              "Oracles on the implementation: returned hash = hash of the payload, signature valid over the hash of the signed part cut by "
              "position, accepted under the own key, rejected as ErrBadSignature under another key, EVERY single-bit flip of the signed bits "
              "+ 16 signature bits + every referenced cell rejected, ExtractRawMessages = the requested (cell, mode) list in order, decoded "
@@ -39,7 +42,9 @@ PROP = {
                     "C14_any_envelope_roundtrip: a built body under ANY such envelope decodes to the requested fields and verifies; "
                     "C14_transfer_roundtrip / C14_transfers_carried: each carried cell is the tlb.Message encoding (C03 descriptor codec) of "
                     "the requested (amount, destination, bounce, body, init, mode) and decoding the cells extracted from the sent message "
-                    "yields exactly the requested transfer list. "
+                    "yields exactly the requested transfer list; C14_create_message_body_expiry: CreateMessageBody signs the explicit expiry or "
+                    "now + the lifetime the wallet was configured with (clock a parameter), the value SendV2 takes too "
+                    "(C15_api_send_v2_expiry); the constant-lifetime design is refuted in Proofs/WalletHistory.v. "
                     "coq/Properties/C14_gen.v re-checks limits, opcodes and the action magic "
                     "translated from today's wallet/*.go."),
     'assumptions': ["Ed25519 and the cell hash are parameters; 'no other key' / 'changed bit' hold under the stated hypotheses ideal_signature and no_second_preimage (idealisations, not proved of Ed25519/SHA-256)",
